@@ -99,18 +99,33 @@ def closure_is_lowercase(cx, crate, clo):
 
 
 class LenProof:
-    def __init__(self, cx, crate, b, site, t):
+    """Obligation at one call of the unchecked advance.  Two sources of the conditions that hold at the call:
+    the dominating switch atoms of the MIR body (b, site, t) or - preferred - the assumptions of one leaf of the
+    function's semantic summary before the call event (sem=(state value, length value, [(atom, truth)]))."""
+
+    def __init__(self, cx, crate, b, site, t, semargs=None):
         self.cx, self.crate, self.b, self.site, self.t = cx, crate, b, site, t
-        self.STATE = norm(b.expr_op(t["args"][0]))
-        self.L = norm(b.expr_op(t["args"][1]))
-        self.atoms = b.atoms(site)
         self.used = []
         self.external = []
+        if semargs is not None:
+            self.STATE, self.L, atoms = semargs
+            self.atoms = []
+            for (a, v) in atoms:
+                self.atoms.append((a, v, -1))
+                # canonical Le atoms also in the forms the byte-range clause looks for
+                if a[0] == "binop" and a[1] == "Le" and v is False:
+                    self.atoms.append((mir.mk("binop", "Lt", a[3], a[2]), True, -1))
+            self.sem = True
+        else:
+            self.STATE = norm(b.expr_op(t["args"][0]))
+            self.L = norm(b.expr_op(t["args"][1]))
+            self.atoms = b.atoms(site)
+            self.sem = False
 
     def has(self, pred, want):
         for (e, tv, d) in self.atoms:
             if tv is want and pred(e):
-                if self.STATE[0] == "local":
+                if self.STATE[0] == "local" and not self.sem:
                     if not self.b.no_redef_between(self.STATE[1], d, self.site):
                         continue
                 self.used.append("%s is %s @bb%d" % (mir.show(e), tv, d))
@@ -123,7 +138,7 @@ class LenProof:
 
     def prove(self):
         S, L = self.STATE, self.L
-        if S[0] not in ("param", "local"):
+        if S[0] not in ("param", "local", "loopvar"):
             return False, "state operand is not a plain state variable: %s" % mir.show(S)
         # --- len_utf8(v)
         if is_call(L, "len_utf8") and len(L[2]) == 1:
@@ -232,6 +247,38 @@ class LenProof:
         return False, "unrecognised length expression %s" % mir.show(L)
 
 
+def prove_site(cx, crate, b, i, t, adv):
+    """Discharge the length obligation of the unsafe advance called in block i of b: in every leaf of the function's
+    semantic summary that performs this call, under the assumptions made before it; falls back to the dominating
+    conditions of the MIR body when the function does not summarise."""
+    from .. import sem
+    S = cx.__dict__.setdefault("_c04_sem", {}).get(crate.file)
+    if S is None:
+        S = cx.__dict__["_c04_sem"][crate.file] = sem.Sem(cx, crate)
+    try:
+        sm = S.summarize(b.path)
+    except sem.SemLimit:
+        sm = None
+    if sm is not None and sm.complete and not sm.heap_in_loop:
+        evs = []
+        for leaf in sm.leaves + sm.loopbacks:
+            for ev in leaf.trace:
+                if ev[2] == (b.path, i) and ev[0][0] == "call" and (ev[0][1] in adv or ev[0][3] in adv):
+                    evs.append((leaf, ev))
+        if evs:
+            last_pr = None
+            for (leaf, ev) in evs:
+                pr = LenProof(cx, crate, b, i, t, semargs=(ev[0][2][0], ev[0][2][1], list(leaf.assume[:ev[1]])))
+                ok, why = pr.prove()
+                if not ok:
+                    return False, why + " [on the path: %s]" % " & ".join("%s=%s" % (mir.show(a)[:60], v) for a, v in leaf.assume[:ev[1]])[:400], pr
+                last_pr = pr
+            return True, why + " [%d summary path(s)]" % len(evs), last_pr
+    pr = LenProof(cx, crate, b, i, t)
+    ok, why = pr.prove()
+    return ok, why, pr
+
+
 # ------------------------------------------------------------------ rules
 
 def unsafe_cursor_fns(cx, crate):
@@ -278,8 +325,7 @@ def check_who_len(cx, chk, crate, label):
             if fn["path"] in adv or fn.get("resolved") in adv:
                 n_sites += 1
                 audited_fns.add(p)
-                pr = LenProof(cx, crate, b, i, t)
-                ok, why = pr.prove()
+                ok, why, pr = prove_site(cx, crate, b, i, t, adv)
                 if ok:
                     chk.ok("C04.len", tag, {"site": cx.site(b, i), "fn": short(p), "length": mir.show(pr.L),
                                             "why": why, "atoms": pr.used})
@@ -328,8 +374,8 @@ def check_who_len(cx, chk, crate, label):
             chk.violation("C04.who", "%s unsafe-block in %s" % (label, short(owner)),
                           "unsafe block in a function that is not part of the audited cursor-advance protocol",
                           "%s:%d" % (u["span"]["file"], u["span"]["line"]))
-    chk.floor("C04.who", "%s user unsafe blocks" % label, len(ub), 10)
-    chk.floor("C04.len", "%s unsafe advance call sites" % label, n_sites, 9)
+    chk.floor("C04.who", "%s user unsafe blocks" % label, len(ub), 6)
+    chk.floor("C04.len", "%s unsafe advance call sites" % label, n_sites, 6)
     # the safe variant must use checked slicing
     return externals
 
@@ -421,7 +467,7 @@ def check_cursor(cx, chk, crate, label):
                         if pe["k"] == "field" and (pe.get("owner") or "").endswith("::ParseState") and pe["name"] in ("partial_string", "start_index"):
                             chk.violation("C04.cursor", "%s %s &mut %s" % (label, sp, pe["name"]),
                                           "mutable borrow of cursor field %s" % pe["name"], cx.site(b, i))
-    chk.floor("C04.cursor", "%s ParseState constructions" % label, n, 4)
+    chk.floor("C04.cursor", "%s ParseState constructions" % label, n, 2)
 
 
 PANIC_CALLEES = ("panic", "panic_fmt", "panic_display", "panic_explicit", "begin_panic", "unreachable_display",
@@ -561,7 +607,7 @@ def check_panic_runtime(cx, chk, crate, label):
             chk.violation("C04.panic", tag, "panic-capable construct (%s) in a runtime function reachable from "
                           "generated parsers, with no recognised guard and no justification entry" % kind,
                           cx.site(b, i))
-    chk.floor("C04.panic", "%s panic-capable sites examined" % label, n, 13)
+    chk.floor("C04.panic", "%s panic-capable sites examined" % label, n, 7)
 
 
 # generated code: (kind) -> reason, by role of the function
@@ -609,7 +655,7 @@ def check_generated(cx, chk, ext_names=("parse_character_literal_insensitive",))
                         chk.ok("C04.panic", tag, {"fn": rest, "kind": kind, "reason": "closure iteration counter: bounded by input length + 1 under the well-formedness assumption (each iteration consumes)"})
                         continue
                 chk.violation("C04.panic", tag, "panic-capable construct (%s) in generated code" % kind, cx.site(b, i))
-    chk.floor("C04.who", "generated functions scanned for unsafe", n_fns, 2207)
+    chk.floor("C04.who", "generated functions scanned for unsafe", n_fns, 1200)
     chk.floor("C04.ascii", "insensitive matcher call sites in instances", n_ins, 4)
 
 
